@@ -324,7 +324,7 @@ static void tiny_o_body(void* arg) {
 // scenario prodcons (C08): one owner heap, remote frees by consumers, heap must end empty and stay bounded
 // ------------------------------------------------------------------------------------------------
 static std::atomic<int> g_pc_freed(0), g_pc_stop(0);
-static std::vector<size_t> g_pc_areas, g_pc_used;
+static std::vector<size_t> g_pc_areas, g_pc_used; static uint64_t g_pc_reuse_checked = 0;
 static void consumer_body(void* arg) {
   ThreadCtx& t = *(ThreadCtx*)arg;
   while (!g_pc_stop.load(std::memory_order_acquire) || g_mail[t.tid].head.load(std::memory_order_acquire) != nullptr) {
@@ -358,6 +358,32 @@ static void producer_body(void* arg) {
     g_pc_areas.push_back(c.areas); g_pc_used.push_back(c.used);
   }
   wait_until(g_pc_freed, sent, "all remote frees done");
+  // reuse phase: pages are filled completely, the consumers free all but one block of every page, the owner collects (not forced) and allocates the same number of
+  // blocks again: they must fit into the remotely freed slots -- the heap may not need more areas than before
+  {
+    static const size_t rclasses[] = { 3000, 400, 8000, 1000 };
+    const size_t n = rclasses[vf_rng_below(&t.rng, 4)];
+    const size_t count = (n >= 3000 ? 160 : 900) + (size_t)vf_rng_below(&t.rng, 200);
+    std::vector<MBlk> bs; std::set<uintptr_t> seen; std::vector<MBlk> keepers; int resent = 0;
+    for (size_t i = 0; i < count; i++) { MBlk b; if (do_alloc(t, &b, H, n)) bs.push_back(b); }
+    CountCtx c0; mi_heap_visit_blocks(H, false, &count_visitor, &c0);
+    for (auto& b : bs) {
+      if (seen.insert((uintptr_t)b.p >> 16).second) { keepers.push_back(b); continue; }     // the first block seen in every 64 KiB stays live: no page becomes empty
+      send_to(1 + (int)vf_rng_below(&t.rng, (uint64_t)K), b); sent++; resent++;
+    }
+    wait_until(g_pc_freed, sent, "reuse phase: remote frees done");
+    vf_cur_what = "owner collect (reuse phase)";
+    mi_heap_collect(H, false);
+    std::vector<MBlk> again;
+    for (int i = 0; i < resent; i++) { MBlk b; if (do_alloc(t, &b, H, n)) again.push_back(b); }
+    CountCtx c1; mi_heap_visit_blocks(H, false, &count_visitor, &c1);
+    g_pc_reuse_checked++;
+    if (c1.areas > c0.areas + 1)
+      vf_trip("remote-free-not-reused", "C08", "%zu blocks of %zu bytes filled %zu areas; other threads freed %d of them (one block per page stayed live), the owner collected and allocated %d blocks again: "
+              "the heap now has %zu areas instead of re-using the freed slots", bs.size(), n, c0.areas, resent, resent, c1.areas);
+    for (auto& b : again) do_free(t, b, false);
+    for (auto& b : keepers) do_free(t, b, false);
+  }
   g_pc_stop.store(1, std::memory_order_release);
   // all blocks of H have been freed (by whichever threads); one forced collect must leave no page behind
   vf_cur_what = "final owner collect";
@@ -615,6 +641,7 @@ static void result_body(FILE* f) {
     for (int i = 0; i <= g_tiny_nT; i++) fprintf(f, "%s%ld", i ? "," : "", vf_thread_cas_count(i));
     fputs("]},", f);
   }
+  if (C.scenario == "prodcons") fprintf(f, "\"reuse_phases\":%llu,", (unsigned long long)g_pc_reuse_checked);
   if (C.scenario == "prodcons") { fputs("\"areas_series\":[", f); for (size_t i = 0; i < g_pc_areas.size(); i += (g_pc_areas.size() > 40 ? g_pc_areas.size() / 40 : 1)) fprintf(f, "%s%zu", i ? "," : "", g_pc_areas[i]); fputs("],", f); }
   if (C.scenario == "arena") { fputs("\"claims_by_blocks\":[", f); for (int i = 1; i <= 7; i++) fprintf(f, "%s%llu", i > 1 ? "," : "", (unsigned long long)g_ar_by_len[i].load()); fputs("],", f); }
   mi_stats_t ms; memset(&ms, 0, sizeof(ms)); mi_stats_merge(); mi_stats_get(sizeof(ms), &ms);
